@@ -15,9 +15,12 @@ import (
 	"math/rand"
 	"os"
 	"path/filepath"
+	"runtime"
 	"sort"
 	"strings"
+	"sync"
 	"time"
+	"unicode/utf8"
 
 	"github.com/200sc/bebop"
 	"verif/harness/internal/filedump"
@@ -75,6 +78,9 @@ func fail(p, kind, stream string, text []byte, op, exp, obs, mdl, note, class st
 	s.FailuresTotal++
 	if len(fails) < 300 {
 		fails = append(fails, failure{p, kind, stream, fmt.Sprintf("%q", abbreviate(text, 600)), hexOf(text), op, abbrev(exp, 400), abbrev(obs, 400), abbrev(mdl, 400), note, class})
+	}
+	if kind == "hang" {
+		noteHang()
 	}
 }
 
@@ -134,7 +140,66 @@ func (f *failReader) Read(p []byte) (int, error) {
 
 var errInjected = errors.New("injected I/O failure")
 
+// finish writes the results; hangs counts inputs on which the implementation did not return. After the first the
+// run ends at once: every hung call keeps a goroutine spinning (and may keep allocating without bound).
+var (
+	finish func()
+	hangs  int
+	// hangAfter: a call that has not returned by then is a hang (the largest input, 1.3 MB, takes well under a second)
+	hangAfter = 6 * time.Second
+)
+
+func noteHang() {
+	hangs++
+	if hangs >= 1 && finish != nil {
+		fmt.Fprintln(os.Stderr, "text engine: the implementation hangs; ending the run after", hangs, "hung calls")
+		finish()
+		os.Exit(0)
+	}
+}
+
+// current: what the implementation is being called on right now (for the memory watchdog).
+var current struct {
+	mu   sync.Mutex
+	op   string
+	text []byte
+}
+
+func setCurrent(op string, text []byte) {
+	current.mu.Lock()
+	current.op, current.text = op, text
+	current.mu.Unlock()
+}
+
+// watchMemory ends the run when the heap passes 3 GiB while a call of the implementation is in progress: a call
+// that runs away allocates faster than the hang deadline can catch (seen: an error list that grows without bound).
+func watchMemory() {
+	for {
+		time.Sleep(250 * time.Millisecond)
+		var ms runtime.MemStats
+		runtime.ReadMemStats(&ms)
+		if ms.HeapAlloc > 3<<30 {
+			current.mu.Lock()
+			op, text := current.op, current.text
+			current.mu.Unlock()
+			p := "C10"
+			if op == "Format" {
+				p = "C16"
+			}
+			fail(p, "hang", "watchdog", text, op, "returns", fmt.Sprintf("heap at %d MiB and growing while the call runs", ms.HeapAlloc>>20), "", "the call runs away (memory)", "")
+			return
+		}
+	}
+}
+
 func realRead(r io.Reader) (o outcome) {
+	if br, ok := r.(*bytes.Reader); ok {
+		b := make([]byte, br.Len())
+		br.ReadAt(b, br.Size()-int64(br.Len()))
+		setCurrent("ReadFile", b)
+	} else if fr, ok := r.(*failReader); ok {
+		setCurrent("ReadFile (failing reader)", fr.data)
+	}
 	done := make(chan outcome, 1)
 	go func() {
 		var o outcome
@@ -154,12 +219,13 @@ func realRead(r io.Reader) (o outcome) {
 	select {
 	case o = <-done:
 		return o
-	case <-time.After(20 * time.Second):
-		return outcome{class: "hang", msg: "ReadFile did not return within 20s"}
+	case <-time.After(hangAfter):
+		return outcome{class: "hang", msg: fmt.Sprintf("ReadFile did not return within %v", hangAfter)}
 	}
 }
 
 func realFormat(text []byte) (out []byte, class string, msg string) {
+	setCurrent("Format", text)
 	type res struct {
 		out   []byte
 		class string
@@ -184,8 +250,8 @@ func realFormat(text []byte) (out []byte, class string, msg string) {
 	select {
 	case r := <-done:
 		return r.out, r.class, r.msg
-	case <-time.After(20 * time.Second):
-		return nil, "hang", "Format did not return within 20s"
+	case <-time.After(hangAfter):
+		return nil, "hang", fmt.Sprintf("Format did not return within %v", hangAfter)
 	}
 }
 
@@ -327,6 +393,14 @@ func checkText(stream string, text []byte, expected string, cmpModel bool, rng *
 	if o.class != "ok" {
 		return
 	}
+	// C11: every name the File carries is spelled in the text (valid UTF-8, byte for byte)
+	for _, n := range fileNames(o.file) {
+		if !utf8.ValidString(n) || !bytes.Contains(text, []byte(n)) {
+			count("C11", stream+"/names", key)
+			fail("C11", "oracle", stream, text, "names of the parsed File", "every identifier occurs in the text", fmt.Sprintf("%q", n), "", "the File carries a name that the text does not spell", "")
+			break
+		}
+	}
 	// C10(d): success => the whole input was consumed: an appended definition is seen or an error results
 	ad := appendDefs[rng.Intn(len(appendDefs))]
 	name := strings.Fields(ad)[1]
@@ -355,6 +429,8 @@ func checkText(stream string, text []byte, expected string, cmpModel bool, rng *
 		if !strings.HasPrefix(mf, "bad-op") && mf != "declined" {
 			if mf != "ok "+hexOf(out) {
 				fail("C16", "mismatch", stream, text, "Format", mf, "ok "+hexOf(out), mf, "model and implementation disagree on Format", cls)
+				// the idempotence theorems are about the same formatter model: its tie to format.go is C17's too
+				fail("C17", "mismatch", stream, text, "Format", mf, "ok "+hexOf(out), mf, "model and implementation disagree on Format", cls)
 			}
 		}
 	}
@@ -394,6 +470,21 @@ func cornerTexts() []string {
 		// signed shifts and wide values in [flags]
 		"[flags]\nenum Mask : int64 {\n\tLow = -16;\n\tShifted = Low >> 2;\n\tLiteral = -64 >> 1;\n}\n[flags]\nenum M32 : int32 {\n\tLow = -16;\n\tShifted = Low >> 2;\n}\n",
 	}
+	out = append(out,
+		// octal literals (a leading zero changes the base)
+		"enum Mode : uint16 {\n\tDefault = 0755;\n\tSticky = 01000;\n\tSeven = 07;\n\tZero = 0;\n}\n",
+		"[flags]\nenum Perm : uint16 {\n\tSticky = 01000;\n\tBoth = Sticky | 02000;\n\tHex = 0x10;\n}\nmessage M {\n\t010 -> int32 ten;\n\t7 -> int32 seven;\n}\n",
+		// empty lines after comments and fields inside bodies
+		"struct S {\n\tint32 a;\n\t// second group\n\n\n\tint32 b;\n\n\n\n\tint32 c; // trailing\n\n\n\tint32 d;\n}\n",
+		"message M {\n\t1 -> int32 a;\n\n\t// doc\n\n\n\t2 -> int32 b;\n}\nunion U {\n\t1 -> struct A {\n\t\t// c\n\n\n\t\tint32 x;\n\t}\n}\n",
+		"const int32 limit = 10;\n// A is documented\nstruct A {\n\tint32 x;\n}\nconst int32 other = 1; // same line\n\n// doc of B\n\nstruct B {\n}\n",
+		// block comments after the last token of a line, as the very last thing of the input
+		"const int32 x = 1; /* trailing */\n",
+		"struct S {\n\tint16 f; /* don't */ /* do */ /* this */\n}\nconst bool b = true; /* one */ /* two */",
+		"message M {\n\t1 -> int32 a; /* after a */\n}\nunion U {\n\t1 -> struct A {\n\t} /* after member */\n} /* after union */\n",
+		// identifiers beyond ASCII
+		"enum Gr\u00f6\u00dfe {\n\tKlein = 1;\n}\nstruct Caf\u00e9 {\n\tint32 se\u00f1al;\n\tGr\u00f6\u00dfe g;\n}\nmessage \u03a9mega {\n\t1 -> Caf\u00e9 c;\n}\n",
+	)
 	for _, n := range []int{4000, 4090, 4097, 4200, 9000} {
 		out = append(out,
 			"// "+long(n)+"\nstruct S {\n\tint32 x;\n}\nstruct T {\n\tS s;\n}\n",
@@ -435,6 +526,66 @@ func bigInput(rng *rand.Rand) {
 			}
 		}
 	}
+}
+
+// fileNames lists every identifier of a parsed File: definitions, fields, enum options, constants, type references.
+func fileNames(f bebop.File) []string {
+	var out []string
+	var typ func(t bebop.FieldType)
+	typ = func(t bebop.FieldType) {
+		switch {
+		case t.Array != nil:
+			typ(*t.Array)
+		case t.Map != nil:
+			out = append(out, t.Map.Key)
+			typ(t.Map.Value)
+		default:
+			out = append(out, t.Simple)
+		}
+	}
+	fields := func(fs []bebop.Field) {
+		for _, fd := range fs {
+			out = append(out, fd.Name)
+			typ(fd.FieldType)
+		}
+	}
+	for _, e := range f.Enums {
+		out = append(out, e.Name)
+		for _, o := range e.Options {
+			out = append(out, o.Name)
+		}
+	}
+	for _, st := range f.Structs {
+		out = append(out, st.Name)
+		fields(st.Fields)
+	}
+	for _, m := range f.Messages {
+		out = append(out, m.Name)
+		for _, fd := range m.Fields {
+			out = append(out, fd.Name)
+			typ(fd.FieldType)
+		}
+	}
+	for _, u := range f.Unions {
+		out = append(out, u.Name)
+		for _, uf := range u.Fields {
+			if uf.Struct != nil {
+				out = append(out, uf.Struct.Name)
+				fields(uf.Struct.Fields)
+			}
+			if uf.Message != nil {
+				out = append(out, uf.Message.Name)
+				for _, fd := range uf.Message.Fields {
+					out = append(out, fd.Name)
+					typ(fd.FieldType)
+				}
+			}
+		}
+	}
+	for _, c := range f.Consts {
+		out = append(out, c.Name)
+	}
+	return out
 }
 
 func firstDiff(a, b string) string {
@@ -649,6 +800,40 @@ func main() {
 	model = proc.Command([]string{*modelPath}, nil, 60*time.Second)
 	defer model.Close()
 	rng := rand.New(rand.NewSource(*seed))
+	go watchMemory()
+	var genTexts [][]byte
+	finish = func() {
+		rules := map[string]string{
+			"C10": "streams: spec (generated schemas in random layouts), fixture, exhaustive (every string over a 35-symbol alphabet up to the tier's length), wordsoup (random token sequences), mutated (fixtures and generated texts with byte/word edits), readerfail (every sampled offset x 2 error values). Each input: ReadFile outcome class vs model; success => append-a-definition oracle. distinct = distinct input byte strings",
+			"C11": "spec stream: the Lean Spec prints a random well-formed schema under a random permitted layout and says which File it denotes; real ReadFile must return exactly that File (and the model's parse must too). distinct = distinct texts",
+			"C16": "every accepted input of all streams: Format must succeed, its output must be accepted and denote the same File up to comment attachment; model fmt compared byte for byte. distinct = distinct accepted texts",
+			"C17": "every accepted input of all streams: Format(Format(x)) == Format(x) byte for byte",
+		}
+		res := map[string]interface{}{"engine": "text", "seed": *seed, "tier": *tier}
+		outStats := map[string]*stat{}
+		for p, s := range stats {
+			s.DistinctNontrivial = len(s.distinct)
+			s.Rule = rules[p]
+			if len(genTexts) > 0 {
+				s.Samples = []string{fmt.Sprintf("%q", abbreviate(genTexts[0], 300)), fmt.Sprintf("%q", abbreviate(genTexts[len(genTexts)/2], 300))}
+			}
+			outStats[p] = s
+		}
+		res["stats"] = outStats
+		res["failures"] = fails
+		b, _ := json.MarshalIndent(res, "", " ")
+		if *out != "" {
+			if err := os.WriteFile(*out, b, 0o644); err != nil {
+				fmt.Fprintln(os.Stderr, err)
+				os.Exit(2)
+			}
+		}
+		for _, p := range []string{"C10", "C11", "C16", "C17"} {
+			if s := stats[p]; s != nil {
+				fmt.Printf("%s: evaluations=%d distinct=%d failures=%d\n", p, s.Evaluations, s.DistinctNontrivial, s.FailuresTotal)
+			}
+		}
+	}
 
 	if *replay != "" {
 		b, err := os.ReadFile(*replay)
@@ -676,7 +861,6 @@ func main() {
 		nGen, size, nSoup, nMut, exLen, rfPer = 5000, 7, 60000, 30000, 3, 40
 	}
 	// 1. Spec: random schemas in random permitted layouts; expected File from the Spec
-	var genTexts [][]byte
 	for i := 0; i < nGen; i++ {
 		s := *seed*1000003 + int64(i)
 		mode := 0 // 0: all constructs, 1: with imports, 2: only constructs the formatter is expected to handle
@@ -737,34 +921,5 @@ func main() {
 	}
 	readerFailures(valid, rfPer, rng)
 
-	rules := map[string]string{
-		"C10": "streams: spec (generated schemas in random layouts), fixture, exhaustive (every string over a 35-symbol alphabet up to the tier's length), wordsoup (random token sequences), mutated (fixtures and generated texts with byte/word edits), readerfail (every sampled offset x 2 error values). Each input: ReadFile outcome class vs model; success => append-a-definition oracle. distinct = distinct input byte strings",
-		"C11": "spec stream: the Lean Spec prints a random well-formed schema under a random permitted layout and says which File it denotes; real ReadFile must return exactly that File (and the model's parse must too). distinct = distinct texts",
-		"C16": "every accepted input of all streams: Format must succeed, its output must be accepted and denote the same File up to comment attachment; model fmt compared byte for byte. distinct = distinct accepted texts",
-		"C17": "every accepted input of all streams: Format(Format(x)) == Format(x) byte for byte",
-	}
-	res := map[string]interface{}{"engine": "text", "seed": *seed, "tier": *tier}
-	outStats := map[string]*stat{}
-	for p, s := range stats {
-		s.DistinctNontrivial = len(s.distinct)
-		s.Rule = rules[p]
-		if len(genTexts) > 0 {
-			s.Samples = []string{fmt.Sprintf("%q", abbreviate(genTexts[0], 300)), fmt.Sprintf("%q", abbreviate(genTexts[len(genTexts)/2], 300))}
-		}
-		outStats[p] = s
-	}
-	res["stats"] = outStats
-	res["failures"] = fails
-	b, _ := json.MarshalIndent(res, "", " ")
-	if *out != "" {
-		if err := os.WriteFile(*out, b, 0o644); err != nil {
-			fmt.Fprintln(os.Stderr, err)
-			os.Exit(2)
-		}
-	}
-	for _, p := range []string{"C10", "C11", "C16", "C17"} {
-		if s := stats[p]; s != nil {
-			fmt.Printf("%s: evaluations=%d distinct=%d failures=%d\n", p, s.Evaluations, s.DistinctNontrivial, s.FailuresTotal)
-		}
-	}
+	finish()
 }
